@@ -16,6 +16,7 @@ import (
 	"sync"
 	"sync/atomic"
 	"time"
+	"verif.local/harness/refcodec"
 
 	connect "github.com/bufbuild/connect-go"
 	"google.golang.org/protobuf/proto"
@@ -331,6 +332,9 @@ func (s *c13State) oneCall(r *rand.Rand, id uint64, procs int) {
 		return
 	case r.Intn(20) == 0:
 		s.panicCall(r, c, id, procs)
+		return
+	case c.proto == "connect" && r.Intn(10) == 0:
+		s.malformedRequest(r, c, id, procs)
 		return
 	}
 	// what this call sends and expects back: reply ids are a function of id
@@ -895,6 +899,47 @@ func (s *c13State) truncatedCall(r *rand.Rand, c *c13Client, id uint64, procs in
 		fmt.Fprintf(h, "%s|%d|%d", e.Error(), e.Code(), hashHeader(e.Meta()))
 		return h.Sum64()
 	}})
+}
+
+// malformedRequest: a peer's request stream that violates the protocol (an
+// end-of-stream envelope, which only servers send; or an envelope with reserved
+// flags) arrives in the middle of the valid traffic. It must be answered with
+// an error, and must not disturb the calls around it (they share the handler's
+// pools with it).
+func (s *c13State) malformedRequest(r *rand.Rand, c *c13Client, id uint64, procs int) {
+	run := s.run
+	hc, base := s.srv.RawHTTPClient(c.http2)
+	msg, _ := proto.Marshal(gen.New(id*16, 300, true))
+	body := refcodec.AppendFrame(nil, 0, msg)
+	shape := "end-of-stream-in-request"
+	switch r.Intn(3) {
+	case 0:
+		body = refcodec.AppendFrame(body, 0x02, []byte(`{"metadata":{"x-from-client":["`+strconv.FormatUint(id, 10)+`"]}}`))
+	case 1:
+		body = refcodec.AppendFrame(refcodec.AppendFrame(nil, 0x02, []byte("{}")), 0, msg)
+	default:
+		shape = "reserved-flags"
+		body = refcodec.AppendFrame(body, 0x40, msg)
+	}
+	var status int
+	var rb []byte
+	var err error
+	ok, dump := watchdog(120*time.Second, func() {
+		status, _, rb, _, err = rawPost(hc, base+svc.ClientStream.Path(), "application/connect+proto", nil, body)
+	})
+	atomic.AddInt64(&s.done, 1)
+	run.Count("calls", 1)
+	run.Count("malformed_request.calls", 1)
+	run.Eval(fmt.Sprintf("%s|client|malformed-request-%s|procs=%d", c.name, shape, procs))
+	key := fmt.Sprintf("c13/malformed-request/%s/%s", c.name, shape)
+	if !ok {
+		run.Violation(key+"/hang", "a malformed request was never answered", trunc(dump, 30000))
+		return
+	}
+	// What the answer says is C07's subject; here the request matters for what
+	// it does to the pools it shares with the calls around it (the pool hooks
+	// and the echo checks of those calls are the oracle).
+	_, _, _ = status, rb, err
 }
 
 // panicCall: the handler panics with a value that names the call; the recovery
